@@ -305,9 +305,16 @@ func genArgFault(r *Rng, d *DeclSpec, p *Plan, twinCalls []Call) (f ArgFault, ok
 		if k == "execute" || k == "handler" {
 			f.Callee.Form = r.Pick([]string{"", "", "flags:help", "flags:required", "flags:unknown", "wrap:help", "wrap:marshal", "flags:command required", "flags:help-empty", "typed-nil", "errtype:help", "errtype:required", "typed-nil-flags"})
 		}
+		if k == "callback" || k == "unmarshal" {
+			// what a failing option callback / UnmarshalFlag may hand back
+			f.Callee.Form = r.Pick([]string{"", "", "", "typed-nil", "wrap:marshal", "wrap:help", "flags:help", "flags:unknown", "typed-nil-flags"})
+		}
 		switch k {
 		case "callback", "unmarshal":
 			f.Expect = "marshal"
+			if strings.HasPrefix(f.Callee.Form, "flags:") || f.Callee.Form == "typed-nil-flags" {
+				f.Expect = "" // the callee's own *flags.Error: the statement names no type for it
+			}
 		case "validate":
 			f.Expect = "expected argument"
 		default:
